@@ -33,6 +33,9 @@ pub enum CertKind {
     ViewerThenOperatorInChain,
     /// the role-less client certificate followed by an unrelated certificate with a role
     RoleLessThenOperatorInChain,
+    /// a client certificate whose role has a leading blank and a capital letter (" Operator"): the
+    /// session's role is exactly that string
+    OddRole,
     /// self-signed mode: another certificate with the pinned certificate's subject (new key)
     SameSubjectOtherKey,
     /// self-signed mode: the pinned key and subject re-issued with another validity (other bytes)
@@ -60,7 +63,9 @@ pub struct Cell {
     /// use the spawn_* constructor instead of create_*
     pub spawn: bool,
     /// how the client configuration is built: 0 = `full_pki(Some(name))` / `self_signed`,
-    /// 1 = the legacy `TlsClientConfig::new(name, .., mode)`, 2 = `full_pki(None)` (no expected name)
+    /// 1 = the legacy `TlsClientConfig::new(name, .., mode)`, 2 = `full_pki(None)` (no expected name),
+    /// 3 = `full_pki(Some("127.0.0.1"))`: the expected name is an IP literal ("valid" is then the
+    /// certificate with the SAN IP:127.0.0.1, "wrong name" the one for test.com)
     #[serde(default)]
     pub ctor: u8,
 }
@@ -102,6 +107,7 @@ fn certs_for(c: &Cell) -> Option<(&'static str, &'static str)> {
         (false, true, SameSubjectOtherKey) => ("ss_server", "ss_server_same_subject"),
         (false, true, SameKeyReissued) => ("ss_server", "ss_server_same_key"),
         (true, false, ViewerThenOperatorInChain) => ("ca_a", "cli_viewer+cli_operator"),
+        (true, false, OddRole) => ("ca_a", "cli_oddrole"),
         (true, false, RoleLessThenOperatorInChain) => ("ca_a", "cli_norole+cli_operator"),
         (false, true, IssuedByPinned) => ("ss_server", "srv_child_of_ss"),
         // the name is not part of the server endpoint's / self-signed mode's checks; roles are a
@@ -119,14 +125,20 @@ pub fn ref_tls(c: &Cell) -> Option<Expectation> {
     }
     let version_ok = !c.min13 || c.peer != PeerVersions::Tls12Only;
     let cert_ok = match c.cert {
-        CertKind::Valid | CertKind::OtherRole | CertKind::ViewerThenOperatorInChain => true,
+        CertKind::Valid | CertKind::OtherRole | CertKind::ViewerThenOperatorInChain | CertKind::OddRole => true,
         CertKind::RoleLess | CertKind::RoleLessThenOperatorInChain => !(c.rodbus_is_server && c.authz),
         // no expected name configured: any server that chains to the authority is valid
         CertKind::WrongName => !c.rodbus_is_server && !c.self_signed && c.ctor == 2,
         _ => false,
     };
     let role = if c.rodbus_is_server && c.authz && version_ok && cert_ok {
-        Some(if matches!(c.cert, CertKind::OtherRole | CertKind::ViewerThenOperatorInChain) { "viewer" } else { "operator" })
+        Some(if matches!(c.cert, CertKind::OtherRole | CertKind::ViewerThenOperatorInChain) {
+            "viewer"
+        } else if c.cert == CertKind::OddRole {
+            " Operator"
+        } else {
+            "operator"
+        })
     } else {
         None
     };
@@ -198,12 +210,16 @@ pub struct TlsServerUnderTest {
 
 /// start a rodbus TLS server for the cell
 pub async fn start_tls_server(c: &Cell, trust: &str, filter: AddressFilter, ip: &str, max_sessions: usize) -> Result<TlsServerUnderTest, String> {
+    start_tls_server_with_policy(c, trust, filter, ip, max_sessions, PolicySpec::FcMask(0xFF)).await
+}
+
+pub async fn start_tls_server_with_policy(c: &Cell, trust: &str, filter: AddressFilter, ip: &str, max_sessions: usize, policy: PolicySpec) -> Result<TlsServerUnderTest, String> {
     let local = if c.self_signed { "ss_server" } else { "srv_valid" };
     let cfg = TlsServerConfig::new(&cert_path(trust), &cert_path(local), &key_path(local), None, min_version(c), mode(c))
         .map_err(|e| format!("TlsServerConfig::new: {e}"))?;
     let app = net_app(&[1]);
     let auth: Option<Arc<dyn AuthorizationHandler>> = if c.authz {
-        Some(Arc::new(AllowAll { policy: Mutex::new(PolicyState { spec: PolicySpec::FcMask(0xFF), n: 0 }), log: app.log.clone() }))
+        Some(Arc::new(AllowAll { policy: Mutex::new(PolicyState { spec: policy, n: 0 }), log: app.log.clone() }))
     } else {
         None
     };
@@ -279,6 +295,88 @@ async fn run_server_cell(c: &Cell) -> Result<Observed, String> {
     Ok(Observed { admitted, version, roles_seen, handler_calls, detail })
 }
 
+/// C08 over a real TLS server with authorization: the role the policy is asked about is the role
+/// of the certificate, character for character; a request the policy denies changes nothing and
+/// is answered with exception 01
+pub fn c08_tls_phase() -> Stats {
+    let mut st = Stats::default();
+    let certs: [(&str, &str); 3] = [("cli_operator", "operator"), ("cli_viewer", "viewer"), ("cli_oddrole", " Operator")];
+    let policy_roles = ["operator", "viewer", " Operator", "Operator", "operator ", "OPERATOR"];
+    let results: Arc<Mutex<Vec<(String, String, Result<(Vec<u8>, Vec<Call>), String>)>>> = Arc::new(Mutex::new(vec![]));
+    rt().block_on(async {
+        let mut joins = vec![];
+        for (cert, _) in certs {
+            for pr in policy_roles {
+                let results = results.clone();
+                joins.push(tokio::spawn(async move {
+                    let cell = Cell { min13: false, self_signed: false, authz: true, rodbus_is_server: true, peer: PeerVersions::Both, cert: CertKind::Valid, spawn: false, ctor: 0 };
+                    let r = async {
+                        let s = start_tls_server_with_policy(&cell, "ca_a", AddressFilter::Any, "127.0.0.1", 4, PolicySpec::RoleIs(pr.to_string())).await?;
+                        let connector = tokio_rustls::TlsConnector::from(peer_client_config(PeerVersions::Both, cert));
+                        let tcp = connect_from("127.0.0.1", s.addr).await.map_err(|e| format!("connect: {e}"))?;
+                        let name = rustls::pki_types::ServerName::try_from("test.com").unwrap();
+                        let mut tls = tokio::time::timeout(STEP_TIMEOUT, connector.connect(name, tcp)).await.map_err(|_| "handshake timed out".to_string())?.map_err(|e| format!("handshake: {e}"))?;
+                        // write single register 3 := 0x1234
+                        let req = mbap_frame(0x0A01, 1, &[6, 0, 3, 0x12, 0x34]);
+                        if !write_all(&mut tls, &req).await {
+                            return Err("write failed".to_string());
+                        }
+                        let reply = match read_n(&mut tls, 9, STEP_TIMEOUT).await {
+                            ReadOutcome::Bytes(b) => b,
+                            other => return Err(format!("no reply: {other:?}")),
+                        };
+                        let _ = tls.shutdown().await;
+                        tokio::time::sleep(Duration::from_millis(5)).await;
+                        let calls = s.app.log.lock().unwrap().clone();
+                        let _ = s.handle.shutdown().await;
+                        Ok((reply, calls))
+                    }
+                    .await;
+                    results.lock().unwrap().push((cert.to_string(), pr.to_string(), r));
+                }));
+            }
+        }
+        for j in joins {
+            let _ = j.await;
+        }
+    });
+    let mut res = results.lock().unwrap().clone();
+    res.sort_by_key(|x| (x.0.clone(), x.1.clone()));
+    for (cert, pr, r) in res {
+        let cert_role = certs.iter().find(|c| c.0 == cert).unwrap().1;
+        let allow = cert_role == pr;
+        st.evaluations += 1;
+        st.class(if allow { "tls-authz:allowed" } else { "tls-authz:denied" });
+        st.observe(&(cert.clone(), pr.clone(), r.as_ref().map(|x| x.0.clone()).ok()));
+        match r {
+            Err(e) => st.violation(Violation { signature: "MACHINERY:tls-authz-cell".into(), summary: format!("{cert} / policy role {pr:?}: {e}"), replay: json!({}) }),
+            Ok((reply, calls)) => {
+                let roles: Vec<String> = calls.iter().filter_map(|c| if let Call::Auth { role, .. } = c { Some(role.clone()) } else { None }).collect();
+                let handler_calls = calls.iter().filter(|c| !matches!(c, Call::Auth { .. })).count();
+                let want_reply: Vec<u8> = if allow { vec![0x0A, 0x01, 0, 0, 0, 6, 1, 6, 0] } else { vec![0x0A, 0x01, 0, 0, 0, 3, 1, 0x86, 1] };
+                let mut bad = vec![];
+                if roles != vec![cert_role.to_string()] {
+                    bad.push(format!("the authorization handler was asked about roles {roles:?}, the certificate's role is {cert_role:?}"));
+                }
+                if reply != want_reply {
+                    bad.push(format!("reply {} expected {}", hex(&reply), hex(&want_reply)));
+                }
+                if handler_calls != usize::from(allow) {
+                    bad.push(format!("{handler_calls} point-handler calls, expected {}", usize::from(allow)));
+                }
+                if !bad.is_empty() {
+                    st.violation(Violation {
+                        signature: format!("tls-authz:{}", if allow { "allowed-request-refused" } else { "denied-request-had-effect" }),
+                        summary: format!("TLS server with authorization, client certificate {cert} (role {cert_role:?}), policy allows exactly the role {pr:?}: {}", bad.join("; ")),
+                        replay: json!({"kind": "c08-tls"}),
+                    });
+                }
+            }
+        }
+    }
+    st
+}
+
 struct States(tokio::sync::mpsc::UnboundedSender<ClientState>);
 
 impl Listener<ClientState> for States {
@@ -289,7 +387,14 @@ impl Listener<ClientState> for States {
 }
 
 async fn run_client_cell(c: &Cell) -> Result<Observed, String> {
-    let (trust, present) = certs_for(c).unwrap();
+    let (trust, mut present) = certs_for(c).unwrap();
+    if c.ctor == 3 {
+        present = match c.cert {
+            CertKind::Valid => "srv_ip",
+            CertKind::WrongName => "srv_valid",
+            _ => present,
+        };
+    }
     let local = if c.self_signed { "ss_client" } else { "cli_operator" };
     #[allow(deprecated)]
     let cfg = if c.ctor == 1 {
@@ -297,7 +402,7 @@ async fn run_client_cell(c: &Cell) -> Result<Observed, String> {
     } else if c.self_signed {
         TlsClientConfig::self_signed(&cert_path(trust), &cert_path(local), &key_path(local), None, min_version(c))
     } else {
-        TlsClientConfig::full_pki(if c.ctor == 2 { None } else { Some("test.com".to_string()) }, &cert_path(trust), &cert_path(local), &key_path(local), None, min_version(c))
+        TlsClientConfig::full_pki(if c.ctor == 2 { None } else if c.ctor == 3 { Some("127.0.0.1".to_string()) } else { Some("test.com".to_string()) }, &cert_path(trust), &cert_path(local), &key_path(local), None, min_version(c))
     }
     .map_err(|e| format!("TlsClientConfig: {e}"))?;
     let (listener, addr) = listen("127.0.0.1").await;
@@ -473,7 +578,7 @@ pub fn check_c09(tier: &str) -> i32 {
         "C09",
         tier,
         "exploration",
-        "the whole configuration grid {min version 1.2, 1.3} x {authority, self-signed} x {with, without authorization} x {rodbus is client, server} x peer offers {TLS1.2 only, TLS1.3 only, both} x peer certificate {valid, wrong authority, wrong name, expired, not yet valid, role-less, differently roled} = 336 cells over real loopback sockets: the rodbus endpoint is built with the unmodified public API, the peer is an independent rustls endpoint with explicit protocol versions and a permissive verifier, so the verdict is rodbus' alone; admission is judged by an answered Modbus request, the negotiated version by the peer, the role by an authorization handler; cells that are not meaningful are listed as n/a; per server configuration two more peers send Modbus bytes instead of / in the middle of the handshake; outside the grid: a certificate issued by the pinned self-signed certificate, certificates with the pinned certificate's subject / subject and key but other bytes, client chains in which an unrelated certificate carrying another role follows the client certificate, and client configurations built with the legacy constructor and without an expected server name. distinct = distinct (cell, observation) pairs",
+        "the whole configuration grid {min version 1.2, 1.3} x {authority, self-signed} x {with, without authorization} x {rodbus is client, server} x peer offers {TLS1.2 only, TLS1.3 only, both} x peer certificate {valid, wrong authority, wrong name, expired, not yet valid, role-less, differently roled} = 336 cells over real loopback sockets: the rodbus endpoint is built with the unmodified public API, the peer is an independent rustls endpoint with explicit protocol versions and a permissive verifier, so the verdict is rodbus' alone; admission is judged by an answered Modbus request, the negotiated version by the peer, the role by an authorization handler; cells that are not meaningful are listed as n/a; per server configuration two more peers send Modbus bytes instead of / in the middle of the handshake; outside the grid: a certificate issued by the pinned self-signed certificate, certificates with the pinned certificate's subject / subject and key but other bytes, client chains in which an unrelated certificate carrying another role follows the client certificate, and client configurations built with the legacy constructor, without an expected server name and with an IP literal as the expected name; a client certificate whose role has a leading blank and a capital letter. distinct = distinct (cell, observation) pairs",
     );
     let thorough = rep.thorough();
     let mut cells = all_cells(false);
@@ -488,7 +593,7 @@ pub fn check_c09(tier: &str) -> i32 {
                     cells.push(Cell { min13: false, self_signed: true, authz, rodbus_is_server, peer, cert, spawn: false, ctor: 0 });
                 }
                 if rodbus_is_server {
-                    for cert in [CertKind::ViewerThenOperatorInChain, CertKind::RoleLessThenOperatorInChain] {
+                    for cert in [CertKind::ViewerThenOperatorInChain, CertKind::RoleLessThenOperatorInChain, CertKind::OddRole] {
                         cells.push(Cell { min13: false, self_signed: false, authz, rodbus_is_server, peer, cert, spawn: false, ctor: 0 });
                     }
                 }
@@ -503,6 +608,7 @@ pub fn check_c09(tier: &str) -> i32 {
                     cells.push(Cell { min13, self_signed, authz: false, rodbus_is_server: false, peer, cert, spawn: false, ctor: 1 });
                     if !self_signed {
                         cells.push(Cell { min13, self_signed, authz: false, rodbus_is_server: false, peer, cert, spawn: false, ctor: 2 });
+                        cells.push(Cell { min13, self_signed, authz: false, rodbus_is_server: false, peer, cert, spawn: false, ctor: 3 });
                     }
                 }
             }
